@@ -328,6 +328,9 @@ func (s *shaper) walk(x excellent.Expression) {
 		if n := len(t.Value.Native().Coefficient().String()); n > s.digits {
 			s.digits = n
 		}
+		if t.Value.Native().Abs().Cmp(decimal.New(100, 0)) >= 0 {
+			s.digits = 99 // a large number
+		}
 		// the decimal's value, not its scale: 1.50 and 1.5 are the same number in every operation
 		s.sb.WriteString("(num " + t.Value.Native().String() + ")")
 	case *excellent.BooleanLiteral:
@@ -387,7 +390,7 @@ type exprInfo struct {
 	scannedT1 bool      // the scanner saw `x @(e) y` as body, expression e, body
 	hasRefA   bool
 	isPath    bool
-	noEval    bool // contains both an exponentiation and a number of more than 3 digits: not evaluated (see Assumptions)
+	noEval    bool // contains both an exponentiation and a number >= 100 or of more than 3 digits: not evaluated (see Assumptions)
 	noEvalDif bool // ... and its printed form has a different tree
 }
 
@@ -649,7 +652,8 @@ func checkExpr(e string, stages int) (vs []viol, info exprInfo) {
 	expectRenamed, _, hasFreeA := shapeOf(x, renameAZ)
 	info.hasRefA = hasFreeA
 	info.isPath = isPathExpr(e)
-	// x ^ 1111111 takes minutes and gigabytes (C04's subject): such trees are compared, not evaluated
+	// x ^ 1111111 takes minutes and gigabytes, 111 ^ 111 ^ 1.50 minutes (C04's subject): a tree with an
+	// exponentiation and a number literal >= 100 or of more than 3 digits is compared, not evaluated
 	info.noEval = nodes&(1<<nExp) != 0 && maxDigits(x) > 3
 
 	var xPrinted excellent.Expression // the tree of the printed form (not modified by anything below)
